@@ -6,5 +6,5 @@ CONSTANTS
   MaxOff = 6
 INIT Init
 NEXT Next
-INVARIANTS Refinement Transparent NeverLonger PointersValid JudgeAccepts JudgeRejects
+INVARIANTS Refinement Transparent NeverLonger PointersValid JudgeAccepts JudgeRejects Chains
 CHECK_DEADLOCK FALSE
